@@ -80,6 +80,14 @@ def build (c : Config) : Muxer :=
   { w := { codec := c.codec, audio := at_ }, width := c.width, height := c.height,
     audioTrack := at_, md := c.md, fast := c.fast }
 
+/-- `MuxerBuilder::build` including its only configuration check besides the missing video
+    configuration: Opus with more than 255 channels cannot be described by dOps (`none` = the
+    `MuxerError::Io(InvalidInput)` result) -/
+def buildChecked (c : Config) : Option Muxer :=
+  match c.audio with
+  | some a => if a.codec = .opus ∧ a.channels > 255 then none else some (build c)
+  | none => some (build c)
+
 /-- `convert_mp4_error` -/
 def convertErr (e : WErr) (idx : Nat) : Reply :=
   match e with
